@@ -14,10 +14,14 @@ entry of the log and what happens there:
                 close after the descriptor was really closed); execution continues in the code under test and every
                 later operation works normally (single-fault assumption).
 
+An I/O error may also *persist* (Fault.persist: every later operation of the same class / every later operation of
+the update fails too) or be followed by a crash at an entry of the error-handling path (Fault.then_crash).
+
 Two file models (FaultFS(buffered=...)): unbuffered (default) - the bytes of every write() are in the real file when
 write() returns, every write() is a log entry and the scratch directory equals what the operating system would hold;
 buffered - written data stays in the process until flush() / close() / 8 KiB, like Python's buffered files, so that
 only open / flush / close / rename ... are log entries and a crash loses the pending data (this exposes "rename before
 close"). `python -m verif.faultfs.selftest` checks the machinery itself.
 """
-from .interposer import Crash, Fault, FaultFS, Op, enumerate_faults, describe_fault  # noqa: F401
+from .interposer import (Crash, Fault, FaultFS, Op, enumerate_faults, enumerate_persistent_faults,  # noqa: F401
+                         error_path_entries, describe_fault, OP_CLASS)
